@@ -651,6 +651,17 @@ def poke(r, what):
     raise ValueError(what)
 
 
+def poke_columns(r):
+    """the caller of a record formatter goes on working with the column texts it was handed (they are its own
+    objects now): appends a mark to each, in place"""
+    res = r.res
+    for i, col in enumerate(res.columns):
+        col += f" <{i}"
+    for name in list(res.cols_by_name):
+        res.cols_by_name[name] += "!"
+    return str(res)
+
+
 def line_iter(r):
     k = r.built.kind
     if k == "usernote":
